@@ -169,7 +169,7 @@ def gen_case(cseed: int, tier: str) -> dict[str, Any]:
         if ops and w.random() < 0.3:
             # overlap / adjacency / repeat relative to an earlier block
             prev = w.choice(ops)
-            a = prev["addr"] + w.choice([0, prev["len"], prev["len"] - 1, -n, 1 - n, prev["len"] // 2])
+            a = prev["addr"] + w.choice([0, prev["len"], prev["len"] - 1, -n, 1 - n, prev["len"] // 2, prev["len"] + 1, prev["len"] + 2, prev["len"] + 4, prev["len"] + 5, -n - 1, -n - 3])  # overlapping, adjacent, or a few bytes apart
         else:
             a = gen_addr(w, n, shift)
         ops.append({"addr": a, "len": n, "fill": w.getrandbits(32)})
@@ -234,6 +234,14 @@ def plan(tier: str) -> dict[str, Any]:
                 b = {"addr": a_addr + b_off, "len": b_len, "fill": 12}
                 for hist in ([a, b, dict(a)], [a, b, dict(a), dict(b)], [a, dict(a)], [a, b, {"addr": 0x20, "len": 2, "fill": 13}, dict(a)]):
                     fixed.append({"header": header, "ops": [dict(x) for x in hist], "stream": stream, "bufsize": 64, "short_writes": None, "fault": None, "meta": {"family": "aba"}})
+    # systematic family: record headers whose offset and length bytes together spell the marker ("..45 4F" + "46 xx",
+    # "..45" + "4F 46"): perfectly representable records
+    for header in (False, True):
+        shift = 0x200 if header else 0
+        for a, n in ((0x12454F, 0x4612), (0x00454F, 0x4600), (0x7F454F, 0x46FF), (0x008045, 0x4F46), (0x123445, 0x4F46), (0x12454F - 65535, 65535 + 0x4612), (0x008045 - 2 * 65535, 2 * 65535 + 0x4F46)):
+            if a - shift >= 0:
+                for stream in ("bytesio", "file"):
+                    fixed.append({"header": header, "ops": [{"addr": 0x10, "len": 3, "fill": 1}, {"addr": a - shift, "len": n, "fill": 7}, {"addr": 0x20, "len": 2, "fill": 3}], "stream": stream, "bufsize": 64, "short_writes": None, "fault": None, "meta": {"family": "marker_across_fields"}})
     # the interpreter's own flags are environment: a sample of the two families above in fresh interpreters
     # started with -O (asserts stripped)
     step = 24 if tier == "quick" else 6
